@@ -48,11 +48,11 @@ func ruleKeySearchComplete(c *eng.Ctx) {
 		}
 		// inside the callback maxKeys is a captured variable
 		if ld, ok := v.(*ssa.UnOp); ok && ld.Op == token.MUL {
-			if fv, ok := ld.X.(*ssa.FreeVar); ok && fv.Name() == "maxKeys" {
+			if fv, ok := ld.X.(*ssa.FreeVar); ok && eng.LogicalName(fv) == "maxKeys" {
 				return true
 			}
 		}
-		if fv, ok := v.(*ssa.FreeVar); ok && fv.Name() == "maxKeys" {
+		if fv, ok := v.(*ssa.FreeVar); ok && eng.LogicalName(fv) == "maxKeys" {
 			return true
 		}
 		return false
